@@ -46,6 +46,27 @@ def gen_texts(rng, tier):
     for _ in range(400 if tier == 'quick' else 100000):
         n = rng.randrange(1, 25)
         texts.append(' '.join(rng.choice(SOUP) for _ in range(n)) if rng.random() < 0.7 else ''.join(rng.choice(SOUP) for _ in range(n)))
+    # IF_DATA read under an A2ML definition whose repeated members can match without taking a token (a reader that goes on
+    # while "an item was read" never ends there): hand-written shapes and generated definitions, conforming and mutated content
+    hdr2 = 'ASAP2_VERSION 1 71 /begin PROJECT p "" /begin MODULE m "" /begin A2ML %s /end A2ML /begin IF_DATA %s /end IF_DATA /end MODULE /end PROJECT'
+    nullable = [('block "IF_DATA" taggedstruct { "ITEM" ( struct { taggedstruct { "X" uint; }; } )*; };', ['ITEM', 'ITEM X 1', 'ITEM X 1 X 2', 'ITEM Y', '']),
+                ('block "IF_DATA" taggedstruct { "ITEM" ( taggedstruct { "X" uint; } )*; };', ['ITEM', 'ITEM X 1 X', 'ITEM 1']),
+                ('block "IF_DATA" struct { ( taggedunion { "A" uint; "B" float; } )*; };', ['', 'A 1', 'A 1 B 2.5', 'C']),
+                ('block "IF_DATA" struct { ( struct { taggedstruct { ("R" uint)*; }; taggedunion { "U" uint; }; } )*; uint; };', ['1', 'R 1 R 2 U 3 4', 'U 1', '']),
+                ('block "IF_DATA" struct { ( struct { ( uint )*; } )*; };', ['', '1 2 3', 'x']),
+                ('block "IF_DATA" taggedstruct { block "B" ( struct { taggedstruct { "X" uint; }; } )*; };', ['/begin B /end B', '/begin B X 1 /end B', '/begin B', 'B'])]
+    for aml, contents in nullable:
+        for cont in contents:
+            texts.append(hdr2 % (aml, cont))
+    try:
+        from checks import a2mlgen as g, c18
+        for i in range(20 if tier == 'quick' else 1500):
+            d = g.gen_definition(rng, rng.choice([1, 2, 3]), nullable_seq=True, struct_repeat=rng.random() < 0.5, tu_seq=rng.random() < 0.3)
+            a2ml = g.render_definition(d)
+            for b in [b[0] for b in c18.mixed_blocks(rng, d, 2, rng.choice([0, 2, 4]))][:3]:
+                texts.append(c18.document(a2ml, [b]))
+    except RecursionError:
+        pass
     # the crash shapes found earlier (regressions of fix: commits) and their relatives
     hdr = 'ASAP2_VERSION 1 71 /begin PROJECT p "" /begin MODULE m "" '
     texts += ['/begin A2ML', '/begin A2ML ', hdr + '/begin A2ML', hdr + '/begin A2ML /', hdr + '/begin A2ML /*', hdr + '/begin A2ML //',
